@@ -498,7 +498,7 @@ class C14(Check):
         nf = len(self.fragile())
         return {
             'xw_bspline': 60 if q else 2000, 'xw_iterfit': 60 if q else 2000, 'xw_combine1fiber': 60 if q else 2000,
-            'xw_pixels': 200 if q else 6000,
+            'xw_pixels': 200 if q else 6000, 'xw_suite': 1,
             'smooth_plain': 3500 if q else 60000,
             'smooth_trunc': 3500 if q else 60000,
             'median_whole': 3000 if q else 50000,
@@ -518,6 +518,11 @@ class C14(Check):
 
     # ------------------------------------------------------------------ generators
     def gen(self, cls, rng, i):
+        if cls == 'xw_suite':
+            case = self.xw.gen_suite(['pydl/tests/test_pydl.py', 'pydl/pydlutils/tests/test_bspline.py', 'pydl/pydlutils/tests/test_math.py',
+                                      'pydl/pydlspec2d/tests/test_spec2d.py'])
+            case['fn'] = 'xwork'
+            return case
         if cls.startswith('xw_'):
             drv, classes = {'xw_bspline': ('C08', ('random', 'explicit_bkpt', 'everyn', 'tiny')), 'xw_iterfit': ('C10', None),
                             'xw_combine1fiber': ('C11', None), 'xw_pixels': ('C17', ('median_1d', 'median_2d', 'aesthetics'))}[cls]
@@ -1744,7 +1749,7 @@ class C14(Check):
     def summarise(self, case):
         c = dict(case)
         if c.get('fn') == 'xwork':
-            return {'fn': 'xwork', 'driver': c['driver'], 'driver_class': c.get('dcls')}
+            return {'fn': 'xwork', 'driver': c['driver'], 'driver_class': c.get('dcls'), 'files': c.get('files')}
         if isinstance(c.get('x'), list) and len(c['x']) > 24:
             c['x'] = c['x'][:24] + ['... %d values in all' % len(case['x'])]
         if isinstance(c.get('index'), list) and len(c['index']) > 24:
